@@ -585,6 +585,11 @@ type PathOpts struct {
 	Feasible func(from *ssa.BasicBlock, succIdx int) bool
 	// Facts seeds boolean facts known at the start (e.g. "this call returned true").
 	Facts map[ssa.Value]bool
+	// Fail marks instructions that must NOT be reached before the target.
+	Fail func(ssa.Instruction) bool
+	// ExitOK: reaching a function exit without the target is acceptable
+	// (used with Fail: "no path reaches X without passing the target").
+	ExitOK bool
 }
 
 // MustPass reports whether every path from just after `from` to a function
@@ -664,17 +669,27 @@ func MustPassOpt(startB *ssa.BasicBlock, startI int, from ssa.Instruction, targe
 			if opts.Stop != nil && opts.Stop(in) {
 				return true
 			}
+			if opts.Fail != nil && opts.Fail(in) {
+				bad = in
+				return false
+			}
 			switch in.(type) {
 			case *ssa.RunDefers:
 				if sawDefer || deferOK {
 					return true
 				}
 			case *ssa.Return, *ssa.Panic:
+				if opts.ExitOK {
+					return true
+				}
 				bad = in
 				return false
 			}
 		}
 		if len(b.Succs) == 0 {
+			if opts.ExitOK {
+				return true
+			}
 			bad = b.Instrs[len(b.Instrs)-1]
 			return false
 		}
@@ -1165,6 +1180,48 @@ func sameExpr(a, b ssa.Value, d int) bool {
 	case *ssa.BinOp:
 		y, ok := b.(*ssa.BinOp)
 		return ok && x.Op == y.Op && sameExpr(x.X, y.X, d+1) && sameExpr(x.Y, y.Y, d+1)
+	}
+	return false
+}
+
+// phiLeaf is a non-φ value flowing into a φ web, with the block the edge leaves from.
+type phiLeaf struct {
+	Val  ssa.Value
+	From *ssa.BasicBlock
+}
+
+// phiLeaves resolves v through φ-nodes to the concrete values that may flow
+// into it (nil constants are dropped).
+func phiLeaves(v ssa.Value) []phiLeaf {
+	var out []phiLeaf
+	seen := map[*ssa.Phi]bool{}
+	var walk func(v ssa.Value, from *ssa.BasicBlock)
+	walk = func(v ssa.Value, from *ssa.BasicBlock) {
+		if phi, ok := v.(*ssa.Phi); ok {
+			if seen[phi] {
+				return
+			}
+			seen[phi] = true
+			for i, e := range phi.Edges {
+				walk(e, phi.Block().Preds[i])
+			}
+			return
+		}
+		if c, ok := v.(*ssa.Const); ok && c.Value == nil {
+			return
+		}
+		out = append(out, phiLeaf{v, from})
+	}
+	walk(v, nil)
+	return out
+}
+
+// blockFacts: DomFacts of b plus nothing else (helper for edge origins).
+func factsAt(b *ssa.BasicBlock, pat CondPat) bool {
+	for _, f := range DomFacts(b) {
+		if pat(f.Cond, f.Taken) {
+			return true
+		}
 	}
 	return false
 }
